@@ -387,7 +387,11 @@ func c08Run(p *Plan, x *Ctx, out *Outcome) {
 	if x.Replay || len(p.Schedule) > 0 || x.R == nil {
 		ch = &ReplayChooser{Sched: p.Schedule}
 	} else {
-		ch = NewPolicyChooser(x.R, p.Policy, len(p.Tasks), true)
+		pc := NewPolicyChooser(x.R, p.Policy, len(p.Tasks), true)
+		if namedZone {
+			pc.Zone = loc
+		}
+		ch = pc
 	}
 	if p.Cfg("coarse", "") == "on" {
 		run.SetCoarse(true)
@@ -475,6 +479,11 @@ func c08Run(p *Plan, x *Ctx, out *Outcome) {
 				}
 				if r.t1.After(r.t0) {
 					out.Probes["clock_jump_inside_evaluation"]++
+				}
+				if namedZone {
+					if start, _ := r.t0.In(loc).ZoneBounds(); !start.IsZero() && r.t0.Sub(start) < 2*time.Hour {
+						out.Probes["now_within_two_hours_after_a_zone_transition"]++
+					}
 				}
 				if r.t0.Sub(start) > 24*time.Hour {
 					out.Probes["now_after_long_jump"]++
